@@ -443,6 +443,9 @@ def run_case(idx, rng, tier, ctx):
             drv = P.driver_source(seeds=drivers)
             processed = {n for n, k in exp.nodes.items() if k == 'ProcedureItem'}
             ref = PL.build_and_run(base / 'ref', PL.project_texts(PL.behaviour_edit(P, processed, spec)), drv)
+            if ref['status'] == 'timeout':
+                res['inconclusive'] = 'timeout: ' + ref['detail']
+                return res
             if ref['status'] != 'ok':
                 res['inconclusive'] = 'generator defect: reference project does not build/run: ' + ref['detail'][:300]
                 return res
@@ -458,6 +461,9 @@ def run_case(idx, rng, tier, ctx):
                          f'{os.path.relpath(o, broot)} stays in the build and defines '
                          f'{sorted(PL.top_level_names(t) & gen_names)} like a generated file')
             got = PL.build_and_run(base / 'planbuild', required, drv, optional)
+            if got['status'] == 'timeout':
+                res['inconclusive'] = 'timeout: ' + got['detail']
+                return res
             if got['status'] == 'build_fail':
                 viol('plan-build-fails', build_detail(got['detail']) + ':' + pipe_key(case), got['detail'])
             elif got['status'] == 'run_fail':
